@@ -4738,3 +4738,25 @@ impl<'a> Assignment<'a> {
         }
     }
 }
+
+/// Verification hooks (compiled only with `--cfg stam_verif`): the lexical layer of the STAMQL parser.
+#[cfg(stam_verif)]
+pub mod verif_hooks {
+    use super::*;
+    /// `get_arg`: (argument, remainder, argument type) or None on a syntax error
+    pub fn verif_get_arg(querystring: &str) -> Option<(String, String, String)> {
+        get_arg(querystring)
+            .ok()
+            .map(|(a, r, t)| (a.to_string(), r.to_string(), format!("{:?}", t)))
+    }
+    /// `get_arg_type`
+    pub fn verif_get_arg_type(s: &str, quoted: bool) -> String {
+        format!("{:?}", get_arg_type(s, quoted))
+    }
+    /// `parse_dataoperator` on an argument typed by `get_arg_type`: Debug rendering of the operator, or None on a syntax error
+    pub fn verif_parse_dataoperator(opstr: &str, value: &str, quoted: bool) -> Option<String> {
+        parse_dataoperator(opstr, value, get_arg_type(value, quoted))
+            .ok()
+            .map(|o| format!("{:?}", o))
+    }
+}
